@@ -473,7 +473,8 @@ def judge(case, res):
 # ---- documented defect families (DESIGN.md section 8 protocol: avoid predicate + dedicated probe)
 ZERO_CHUNK_CLASS = {
     "argmax_u": "argreduce", "max_all": "minmax", "ravel": "reshape", "mask_again": "reshape",
-    "add": "broadcast", "where_gt": "broadcast", "maximum": "broadcast",
+    "add": "broadcast", "where_gt": "broadcast", "maximum": "broadcast", "broadcast_to": "broadcast",
+    "repeat_u": "repeat", "mask_by_b": "mask-unify",
 }
 
 
@@ -501,7 +502,7 @@ PROBES = [
      "(length-1 blocks broadcast): x=arange(6) chunks 3; a=x[(x<1)|(x>2)]; a + from_array(arange(4)*10, chunks=(3,1)) -> [0,10,20,33,34,35], NumPy [0,13,24,35]"),
     ("unknown-elemwise-positional-blocks",
      {"src": _src1([6], [[3, 3]]), "sel": {"kind": "mask_full_da", "pred": ["out", 1, 2]},
-      "sel_b": {"kind": "mask_full_da", "pred": ["gt", 1]}, "op": "add", "phase": "before", "opt": False, "u": 0, "o": None},
+      "sel_b": {"kind": "mask_full_da", "pred": ["out", 4, 5]}, "op": "add", "phase": "before", "opt": False, "u": 0, "o": None},
      "two unknown-chunk arrays with equal block counts are added block by block"),
     ("unknown-ndmask-order",
      {"src": _src1([3, 3], [[1, 1, 1], [2, 1]], mod=5), "sel": {"kind": "argwhere", "pred": ["mod", 4]},
@@ -524,7 +525,16 @@ PROBES = [
      {"src": _src1([3], [[1, 2]], mul=7, off=2, mod=5), "sel": {"kind": "where1", "pred": ["gt", 2], "i": 0},
       "sel_b": {"kind": "where1", "pred": ["out", 4, 4], "i": 0}, "src_b": _src1([3], [[1, 1, 1]], mul=7, off=2, mod=5),
       "op": "where_gt", "phase": "after", "opt": True, "u": 0, "o": None},
-     "a length-1 axis split in chunks (0,1) does not broadcast against a longer axis: 'Chunks do not add up to same value'"),
+     "a length-1 axis split in chunks (0,1) does not broadcast against a longer axis: 'Chunks do not add up to same value' "
+     "(also broadcast_to(from_array([5], chunks=((0,1),)), (2,1)))"),
+    ("resolved-zero-chunk:repeat",
+     {"src": _src1([1, 1], [[1], [1]], mul=3, mod=11), "sel": {"kind": "where1", "pred": ["out", 0, 2], "i": 0},
+      "op": "repeat_u", "phase": "after", "opt": True, "u": 0, "o": None},
+     "repeat along an axis holding a zero-length chunk raises AssertionError (also da.repeat(from_array([5,6], chunks=((0,2),)), 2, axis=0))"),
+    ("resolved-zero-chunk:mask-unify",
+     {"src": _src1([2], [[1, 1]], off=-3, mod=11), "sel": {"kind": "where1", "pred": ["out", 9, 9], "i": 0},
+      "sel_b": {"kind": "where1", "pred": ["gt", 8], "i": 0}, "op": "mask_by_b", "phase": "after", "opt": False, "u": 0, "o": None},
+     "a[b > 1] with a chunked (1,0) and b chunked (0,1) raises RuntimeError 'optimization changed the block structure … advertised chunks are unknown' at compute"),
 ]
 
 
@@ -611,7 +621,7 @@ def search(ctx):
     per_sel = ctx.scale(14, 40)
     unary_names = list(UNARY_OPS)
     for isel in range(NSEL):
-        if ctx.tier == "quick" and ctx.elapsed() > 50:
+        if ctx.elapsed() > ctx.scale(50, 520):
             ctx.notes["search_stopped_early_at_selection"] = isel
             break
         src = gen_source(rng)
@@ -700,7 +710,34 @@ def search(ctx):
                     src_b["chunks"] = [list(c) for c in rand_chunks_nd(rng, tuple(src["shape"]))]
                     sel_b.pop("vchunks", None)
                 nm = rng.choice(list(BINARY_OPS))
+                zb = zero_chunk
+                if not zb and nm in ZERO_CHUNK_CLASS:
+                    try:
+                        with warnings.catch_warnings():
+                            warnings.simplefilter("ignore")
+                            bb = build_sel(sel_b, src_b, da)
+                            bb.compute_chunk_sizes()
+                            zb = any(0 in c for c in bb.chunks)
+                    except Exception:
+                        zb = False
+                b_res = None
+                if nm in ELEMWISE_BINARY:
+                    try:
+                        with warnings.catch_warnings():
+                            warnings.simplefilter("ignore")
+                            bb = build_sel(sel_b, src_b, da)
+                            bb.compute_chunk_sizes()
+                            b_res = bb.chunks
+                    except Exception:
+                        b_res = None
                 for phase in ("before", "after"):
+                    if phase == "after" and zb and nm in ZERO_CHUNK_CLASS:
+                        ctx.notes["avoid.resolved-zero-chunk"] = ctx.notes.get("avoid.resolved-zero-chunk", 0) + 1
+                        continue
+                    if phase == "before" and nm in ELEMWISE_BINARY and b_res != res_chunks:
+                        # family unknown-elemwise-positional-blocks (true block sizes differ): dedicated probes
+                        ctx.notes["avoid.positional-blocks"] = ctx.notes.get("avoid.positional-blocks", 0) + 1
+                        continue
                     c = {"src": src, "sel": sel, "sel_b": sel_b, "op": nm, "phase": phase, "opt": rng.random() < 0.6, "u": u, "o": o}
                     if src_b is not src:
                         c["src_b"] = src_b
@@ -709,11 +746,18 @@ def search(ctx):
                 n = want.shape[0]
                 nblocks = len(adv[0])
                 kc = list(gen.rand_chunks(rng, n))
-                if rng.random() < 0.6 and nblocks <= n:
+                if rng.random() < 0.4:
+                    kc = [int(c) for c in res_chunks[0]]  # aligned with the true block sizes
+                elif rng.random() < 0.6 and nblocks <= n:
                     # same block count as the unknown operand
                     cuts = sorted(rng.sample(range(1, n), nblocks - 1)) if nblocks > 1 else []
                     kc = [b - a for a, b in zip([0] + cuts, cuts + [n])]
                 for phase in ("before", "after"):
+                    if phase == "after" and zero_chunk:
+                        continue
+                    if phase == "before" and (tuple(kc),) != tuple(tuple(c) for c in res_chunks) and len(kc) == nblocks:
+                        ctx.notes["avoid.positional-blocks"] = ctx.notes.get("avoid.positional-blocks", 0) + 1
+                        continue
                     cases.append({"src": src, "sel": sel, "known": {"n": n, "chunks": kc}, "op": rng.choice(sorted(ELEMWISE_BINARY)), "phase": phase,
                                   "opt": rng.random() < 0.6, "u": 0, "o": None})
         for case in cases:
@@ -738,8 +782,43 @@ def search(ctx):
             sig2 = classify(case, sig, zc)
             if sig2 == sig:
                 case = minimise(case, sig)
+                again = judge(case, eval_case(case))
+                if again:
+                    what = again[1]
             ctx.sample({"failing": describe(case)})
             ctx.fail(sig2, {"case": case, "what": what, "program": describe(case)}, what)
+
+
+def check_resolve(case):
+    """(signature, what) problems of the compute_chunk_sizes step of a selection (replay of phase 'resolve')."""
+    import dask
+    import dask_array as da
+
+    src, sel = case["src"], case["sel"]
+    out = []
+    with warnings.catch_warnings():
+        warnings.simplefilter("ignore")
+        want = np.asarray(build_sel(sel, src, np))
+        with dask.config.set({"array.optimize-graph": bool(case.get("opt", True))}):
+            y = build_sel(sel, src, da)
+            adv = y.chunks
+            true = block_shapes(y)
+            if not same(y.compute(), want):
+                out.append(("selection:wrong-result", "the selection itself differs from NumPy"))
+            for idx, shp in true.items():
+                for ax, (j, sz) in enumerate(zip(idx, shp)):
+                    c = adv[ax][j]
+                    if not (isinstance(c, float) and math.isnan(c)) and int(c) != sz:
+                        out.append(("advertised-known-chunk-wrong", f"block {idx}: advertised {adv}, true {shp}"))
+            y.compute_chunk_sizes()
+            rc = y.chunks
+            ok = all(not has_nan(c) for c in rc) and len(rc) == want.ndim and all(
+                tuple(rc[ax][j] for ax, j in enumerate(idx)) == tuple(shp) for idx, shp in true.items())
+            if not ok:
+                out.append(("compute_chunk_sizes:sizes", f"resolved chunks {rc} vs true block shapes {sorted(true.items())}"))
+            elif tuple(y.shape) != want.shape or not same(y.compute(), want):
+                out.append(("compute_chunk_sizes:shape", f"shape {y.shape} vs NumPy {want.shape}"))
+    return out
 
 
 def minimise(case, sig):
@@ -847,9 +926,13 @@ def run(ctx, replay=None):
     ]
     if replay is not None:
         case = replay.get("case", {}).get("case") or replay.get("case")
+        ctx.count(("replay",))
+        if case.get("phase") == "resolve":
+            for sig, what in check_resolve(case)[:3]:
+                ctx.fail(sig, {"case": case, "what": what, "program": describe(case)}, what)
+            return
         res = eval_case(case)
         bad = judge(case, res)
-        ctx.count(("replay",))
         if bad:
             sig = replay.get("sig") or bad[0]
             ctx.fail(sig, {"case": case, "what": bad[1], "program": describe(case)}, bad[1])
